@@ -402,11 +402,35 @@ pub fn install_panic_hook() {
         };
         let loc = info.location().map(|l| format!("{}:{}", l.file(), l.line())).unwrap_or_default();
         if !IN_GUARD.with(|g| *g.borrow()) {
-            eprintln!("TOOL-ERROR: harness panicked outside a guarded call: {} @ {}", msg, loc);
+            if foreign_location(&loc) {
+                eprintln!("PANIC of the code under test outside a guarded call: {} @ {}", msg, loc);
+            } else {
+                eprintln!("TOOL-ERROR: harness panicked outside a guarded call: {} @ {}", msg, loc);
+            }
         }
         LAST_PANIC.with(|p| *p.borrow_mut() = format!("{} @ {}", msg, loc));
     }));
 }
+/// Does a panic location lie outside the harness crate (whose own files are reported relative, `src/..`)?  Then the
+/// panic was raised by the code under test (or a library below it) while the harness was observing the object.
+pub fn foreign_location(loc: &str) -> bool {
+    !loc.is_empty() && !loc.starts_with("src/") && !loc.starts_with("harness/")
+}
+/// A public read method of the code under test panicked while the harness was observing the object (outside
+/// `guarded`): recorded like a hang - one record in the hang file, record files flushed, exit 0 - and judged
+/// by the pipeline as `<id>.total`, never as a tool error.
+pub fn observation_panicked(msg: &str) -> ! {
+    let rec = json!({"k":"hang","s":"vh","kind":"panic_in_observation","tid":CALL_TID.load(Ordering::SeqCst),
+                     "panic": msg, "note": HANG_NOTE.lock().unwrap().clone()});
+    let path = HANG_PATH.lock().unwrap().clone();
+    if let Ok(mut f) = std::fs::OpenOptions::new().create(true).append(true).open(&path) {
+        let _ = writeln!(f, "{}", rec);
+    }
+    eprintln!("PANIC-IN-OBSERVATION: {}", rec);
+    flush_all_outs();
+    std::process::exit(0);
+}
+pub static HANG_PATH: std::sync::Mutex<String> = std::sync::Mutex::new(String::new());
 /// Run `f`; Err(message) if it panicked.
 pub fn guarded<T>(f: impl FnOnce() -> T) -> Result<T, String> {
     tick();
@@ -423,6 +447,7 @@ pub fn guarded<T>(f: impl FnOnce() -> T) -> Result<T, String> {
 /// record to `hang_path`, flush the record files and leave the process with exit code 0 (the record is
 /// judged like any other).
 pub fn start_watchdog(limit_ms: u64, hang_path: String, structure: &'static str) {
+    *HANG_PATH.lock().unwrap() = hang_path.clone();
     std::thread::spawn(move || {
         let mut last_progress = PROGRESS.load(Ordering::Relaxed);
         let mut last_change = now_ms();
@@ -507,7 +532,20 @@ impl<S: Sut> LockStep<S> {
         LockStep { main, shadow: None, cfg: cfg.clone(), getters0 }
     }
     pub fn apply(&mut self, op: &Value, other: Option<&S>) -> Value {
-        let mut rec = self.main.apply(op, other);
+        // the Sut guards the call itself; its observation of the object (query over the universe, len, count, ...)
+        // runs unguarded: a panic raised there by the code under test is an outcome, not a tool failure
+        let main = &mut self.main;
+        let mut rec = match catch_unwind(AssertUnwindSafe(|| main.apply(op, other))) {
+            Ok(r) => r,
+            Err(e) => {
+                let msg = LAST_PANIC.with(|p| p.borrow().clone());
+                let loc = msg.rsplit(" @ ").next().unwrap_or("").to_string();
+                if foreign_location(&loc) {
+                    observation_panicked(&msg);
+                }
+                std::panic::resume_unwind(e)
+            }
+        };
         if !self.getters0.is_null() {
             rec["cfg_same"] = json!(self.main.config() == self.getters0);
         }
